@@ -10,6 +10,10 @@ def main():
     name = sys.argv[1]
     args = [a for a in sys.argv[2:] if not a.startswith("--")]
     tier = "quick"
+    replay = None
+    if "--replay" in sys.argv:  # run one stored case against the mutated tree instead of the whole check
+        replay = sys.argv[sys.argv.index("--replay") + 1]
+        args = [a for a in args if a != replay]
     if "--tier" in sys.argv:
         tier = sys.argv[sys.argv.index("--tier") + 1]
         args = [a for a in args if a != tier]
@@ -31,7 +35,9 @@ def main():
     try:
         for p in props:
             t0 = time.time()
-            r = sh(f"./check {p} --tier {tier}", cwd=VERIF)
+            r = sh(f"./check {p} --replay {replay}" if replay else f"./check {p} --tier {tier}", cwd=VERIF)
+            if replay:
+                print(r.stdout[-3000:]); continue
             viol = [l for l in r.stdout.splitlines() if l.startswith("VIOLATION") or l.startswith("  class:") or l.startswith("MACHINERY")]
             results[p] = {"exit": r.returncode, "wall_s": round(time.time() - t0, 1), "lines": viol[:12]}
             print(f"{name} vs {p} ({tier}): exit={r.returncode} in {results[p]['wall_s']}s")
@@ -41,6 +47,8 @@ def main():
         sh("git -C /repo reset -q && git -C /repo checkout -- .")
         # restore evidence/replays produced on the mutated tree
         sh("git checkout -- evidence 2>/dev/null; git clean -fdq replays", cwd=VERIF)
+    if replay:
+        return
     out = os.path.join(d, "detection.json")
     old = json.load(open(out)) if os.path.exists(out) else {}
     old.update({f"{p}:{tier}": v for p, v in results.items()})
